@@ -293,7 +293,7 @@ func checkRouterLocks(l *core.Ledger, r *rt, rm *routerModel, rule string) {
 
 // checkDeliverDelete: M4 (and, with errorsTerminal, C07-E6).
 func checkDeliverDelete(l *core.Ledger, r *rt, rm *routerModel, rule string, errorsTerminal bool) {
-	if !l.Floor(rule, len(rm.deliveries), 2, "delivery sites through a router (routeResponse, cancelPendingMsgs)") {
+	if !l.Floor(rule, len(rm.deliveries), 1, "delivery sites through a router (routeResponse, cancelPendingMsgs)") {
 		return
 	}
 	for _, d := range rm.deliveries {
